@@ -383,7 +383,7 @@ HEADER = ('From Coq Require Import QArith ZArith String List.\n'
 def correspondence(ctx):
     rng = random.Random(ctx.seed)
     quick = ctx.tier == 'quick'
-    groups = gen_groups(rng, 90 if quick else 2800, 77 if quick else 2200)
+    groups = gen_groups(rng, 140 if quick else 2800, 110 if quick else 2200)
     res = ctx.run_impl('kernels_impl.py', {'groups': [{'id': g['id'], 'expr': KERNELS[g['kname']][2], 'operands': g['operands']} for g in groups]})
     terms, descs = [], []
     for g, r in zip(groups, res['groups']):
@@ -402,7 +402,7 @@ def correspondence(ctx):
         key = f'{d["kernel"]}:{reason}' + (f':shape-{d["shape"]}' if reason.startswith('impl-raises') else '')
         ctx.violation(key, f'{d["kernel"]}: implementation differs from the Euclidean model ({why}) on {d}', {'case': d, 'reason': why})
     # the property's own statement, implementation against implementation (compared in Coq)
-    iterms, idescs, rterms = run_invariance(ctx, rng, 14 if quick else 300)
+    iterms, idescs, rterms = run_invariance(ctx, rng, 20 if quick else 300)
     ifails, ierrors = ctx.coq_eval_shards(HEADER, iterms, lambda k: 'Eval vm_compute in (report (map icheck cases)).\n', shard=400, prefix='inv')
     rfails, rerrors = ctx.coq_eval_shards(HEADER, [t for t, _ in rterms], lambda k: 'Eval vm_compute in (report (map in_range cases)).\n',
                                           shard=400, prefix='rng')
